@@ -6,13 +6,14 @@
 //!                                            for kind `cbuffer`, len = number of members (`0` = empty block)
 //!   S <k>                                    `static int s_value<k> = 0;`
 //!   F <name> <shape><flags> <threads|-> <uses|-> <calls|-> <statics|->
-//!         shape : h `void f()`  c compute  v vertex  p pixel  t task  m mesh  n mesh with payload
+//!         shape : h `void f()`  c compute  v vertex  p pixel  r pixel reading a per-primitive attribute  t task  m mesh
+//!                 n mesh with payload  q mesh with per-primitive output and control flow around the output writes
 //!         flags : d declaration only, T function template, N inside `namespace ns1`, M method of `struct S_<name>`,
 //!                 D only under `#if WIDE_ON`, E only under `#if !WIDE_ON`
 //!         threads `8,c4,1` (cN = a constant expression with value N); uses/calls names joined by `.`; statics `0.2`
 //!   P <name> <flags|-> <prop> <prop> ...     pipeline block (flags N D E as above)
 //!         prop  : Name=val ; val : i:ident  q:qualified::ident  s:String  n:123  k:5 (constant expression)  m:1 (= -1)
-//!                 f:1.5  b:1|b:0  {Sub=val,Sub=val}
+//!                 f:1.5  b:1|b:0  x:0 (no value at all: a syntax error)  {Sub=val,Sub=val}
 //! rendering : every property on a line of its own, so that a diagnostic's line identifies the property;
 //!             `path` of a property = its number in a depth-first walk of the block (1-based; 0 = the header line).
 #![allow(dead_code)]
@@ -28,6 +29,8 @@ pub enum Val {
     Neg(u64),
     Float(String),
     Bool(bool),
+    /// nothing between `=` and `;`: the parser rejects the file
+    Garbage,
     Agg(Vec<Prop>),
 }
 
@@ -108,6 +111,8 @@ pub const WRES_KINDS: &[(&str, &str)] = &[
     ("SamplerState", "SamplerState"),
     ("SamplerComparisonState", "SamplerComparisonState"),
     ("cbuffer", "cbuffer"),
+    // a structured buffer whose element has different layouts in HLSL and Metal: rejected by layout validation only
+    ("TrapBuffer", "StructuredBuffer<LayoutTrap>"),
 ];
 
 // ------------------------------------------------------------------------------------------------ encoding
@@ -122,6 +127,7 @@ fn show_val(v: &Val) -> String {
         Val::Neg(n) => format!("m:{}", n),
         Val::Float(s) => format!("f:{}", s),
         Val::Bool(b) => format!("b:{}", if *b { 1 } else { 0 }),
+        Val::Garbage => "x:0".to_string(),
         Val::Agg(ps) => format!("{{{}}}", ps.iter().map(show_prop).collect::<Vec<_>>().join(",")),
     }
 }
@@ -213,7 +219,7 @@ impl WProgram {
                 Some("F") if f.len() == 7 => {
                     let mut ch = f[2].chars();
                     let shape = ch.next()?;
-                    if !"hcvptmn".contains(shape) {
+                    if !"hcvprtmnq".contains(shape) {
                         return None;
                     }
                     let flags: String = ch.collect();
@@ -355,6 +361,7 @@ fn parse_val(s: &str) -> Option<Val> {
         "m" => Val::Neg(v.parse().ok()?),
         "f" => Val::Float(v.to_string()),
         "b" => Val::Bool(v == "1"),
+        "x" => Val::Garbage,
         _ => return None,
     })
 }
@@ -395,6 +402,7 @@ fn render_scalar(v: &Val) -> String {
         Val::Neg(n) => format!("-{}", n),
         Val::Float(s) => s.clone(),
         Val::Bool(b) => (if *b { "true" } else { "false" }).to_string(),
+        Val::Garbage => String::new(),
         Val::Agg(_) => unreachable!(),
     }
 }
@@ -489,6 +497,17 @@ fn render_func(prog: &WProgram, f: &WFunc) -> String {
             "    o_pos = float4(0, 0, 0, 1);\n".to_string(),
         ),
         'p' => (format!("float4 {}(float4 i_pos : SV_Position) : SV_Target0", n), "    return float4(0, 0, 0, 0);\n".to_string()),
+        'r' => (
+            format!("float4 {}(float4 i_pos : SV_Position, uint i_material : MATERIAL) : SV_Target0", n),
+            "    return float4(i_material, 0, 0, 0);\n".to_string(),
+        ),
+        'q' => (
+            format!(
+                "[outputtopology(\"triangle\")]\nvoid {}(\n    uint3 dtid : SV_DispatchThreadID,\n    out vertices MeshVertex o_vertices[64],\n    out primitives MeshPrim o_primitives[64],\n    out indices uint3 o_triangles[64]\n)",
+                n
+            ),
+            "    SetMeshOutputCounts(64, 64);\n    for (uint v = dtid.x; v < 64; v += 64)\n    {\n        MeshVertex vertex;\n        vertex.position = float4(0, 0, 0, 1);\n        o_vertices[v] = vertex;\n    }\n    MeshPrim prim;\n    prim.material = dtid.x % 8;\n    if (dtid.x < 64)\n    {\n        o_primitives[dtid.x] = prim;\n    }\n    else\n    {\n        o_primitives[0] = prim;\n    }\n    uint i = 0;\n    while (i < 1)\n    {\n        o_triangles[dtid.x] = uint3(0, 1, 2);\n        i++;\n    }\n".to_string(),
+        ),
         't' => (
             format!("void {}(uint3 dtid : SV_DispatchThreadID)", n),
             "    lds_payload.start_location = dtid.x;\n    DispatchMesh(4u, 1u, 1u, lds_payload);\n".to_string(),
@@ -558,7 +577,7 @@ fn render_res(r: &WRes) -> String {
     s
 }
 
-pub const PREAMBLE: &str = "struct CbS { float4 v; };\nstatic const uint K_ONE = 1;\nstruct MeshVertex { float4 position : SV_Position; };\nstruct TaskPayload { uint start_location; };\ngroupshared TaskPayload lds_payload;";
+pub const PREAMBLE: &str = "struct CbS { float4 v; };\nstatic const uint K_ONE = 1;\nstruct MeshVertex { float4 position : SV_Position; };\nstruct TaskPayload { uint start_location; };\ngroupshared TaskPayload lds_payload;\nstruct MeshPrim { uint material : MATERIAL; };\nstruct LayoutTrap { float a; float2 b; float3 c; };";
 
 pub fn render_wide(prog: &WProgram, o: &RenderOpts) -> Rendered {
     let mut lines = Vec::new();
@@ -747,7 +766,7 @@ pub struct WideOpts {
 
 impl Default for WideOpts {
     fn default() -> Self {
-        WideOpts { allow_mesh: true, odd_percent: 40, max_pipes: 4 }
+        WideOpts { allow_mesh: true, odd_percent: 50, max_pipes: 4 }
     }
 }
 
@@ -861,8 +880,8 @@ pub fn gen_wide(rng: &mut Rng, o: &WideOpts) -> WProgram {
                 let (prefix, shape) = match *st {
                     "Compute" => ("cs", 'c'),
                     "Vertex" => ("vs", 'v'),
-                    "Pixel" => ("ps", 'p'),
-                    "Mesh" => if task_mesh { ("mst", 'n') } else { ("ms", 'm') },
+                    "Pixel" => ("ps", if kind == 5 && rng.chance(1, 3) { 'r' } else { 'p' }),
+                    "Mesh" => if task_mesh { ("mst", 'n') } else if rng.chance(1, 3) { ("ms", 'q') } else { ("ms", 'm') },
                     _ => ("ts", 't'),
                 };
                 let (uses, calls, statics, d) = gen_body(rng, &nodes, &helper_nodes);
@@ -936,7 +955,7 @@ pub fn gen_wide(rng: &mut Rng, o: &WideOpts) -> WProgram {
         let nedits = 1 + rng.below(2);
         for _ in 0..nedits {
             let pick_pipe = |rng: &mut Rng| -> Option<usize> { if pipe_nodes.is_empty() { None } else { Some(*rng.pick(&pipe_nodes)) } };
-            match rng.below(22) {
+            match rng.below(25) {
                 0 => {
                     // entry point defined after the pipeline that names it
                     if let Some(p) = pick_pipe(rng) {
@@ -1242,6 +1261,42 @@ pub fn gen_wide(rng: &mut Rng, o: &WideOpts) -> WProgram {
                                     1 => Val::Num(1),
                                     _ => Val::Str("cs_0".into()),
                                 };
+                            }
+                        }
+                    }
+                }
+                20 => {
+                    // a property without a value: the parser rejects the file
+                    if let Some(p) = pick_pipe(rng) {
+                        if let WItem::Pipe(pp) = &mut nodes[p].item {
+                            if !pp.props.is_empty() {
+                                let i = rng.below(pp.props.len() as u64) as usize;
+                                pp.props[i].val = Val::Garbage;
+                            }
+                        }
+                    }
+                }
+                21 => {
+                    // a helper that is declared and never defined (nobody calls it)
+                    nodes.push(Node {
+                        item: WItem::Func(WFunc {
+                            name: "declared_only".into(),
+                            shape: 'h',
+                            flags: "d".into(),
+                            threads: None,
+                            uses: Vec::new(),
+                            calls: Vec::new(),
+                            statics: Vec::new(),
+                        }),
+                        deps: Vec::new(),
+                    });
+                }
+                22 => {
+                    // a pixel shader that reads a per-primitive attribute, shared by whoever names it
+                    if let Some((_, e)) = entries.iter().find(|(s, _)| *s == "Pixel").copied() {
+                        if let WItem::Func(f) = &mut nodes[e].item {
+                            if f.shape == 'p' {
+                                f.shape = 'r';
                             }
                         }
                     }
